@@ -231,6 +231,26 @@ def d4(ck: Check) -> None:
                          f"overrides that agree on the key (e.g. the same variables with other values) replace each other")
         if isinstance(n_, (ast.ListComp, ast.GeneratorExp)) and any(g_.ifs for g_ in n_.generators):
             probs.append(f"line {n_.lineno}: `{text(n_)[:60]}` filters the overrides")
+    # ... and every step arrives: the stored control is the given list itself, a comprehension over it without a filter, or
+    # a list that receives one entry on every iteration of a loop over it
+    ctl_p = next((p_ for p_ in iv.f.params() if p_ not in ("self",) and "control" in p_), None)
+    stores_ = [n_ for n_ in own_walk(iv.f.node) if isinstance(n_, (ast.Assign, ast.AnnAssign)) and n_.value is not None
+               and text(n_.targets[0] if isinstance(n_, ast.Assign) else n_.target) == "self._control"]
+    if ctl_p is not None and len(stores_) == 1:
+        v_ = stores_[0].value
+        if is_empty_list(v_):
+            apps_ = [c_ for c_ in own_walk(iv.f.node) if isinstance(c_, ast.Call) and isinstance(c_.func, ast.Attribute) and c_.func.attr == "append"
+                     and text(c_.func.value) == "self._control"]
+            okfill = False
+            for c_ in apps_:
+                lps_ = [l_ for l_ in iv.cfg.enclosing_loops(iv.cfgn(c_)) if isinstance(l_, ast.For)]
+                if len(lps_) == 1 and isinstance(lps_[0].iter, ast.Name) and lps_[0].iter.id == ctl_p \
+                        and any(isinstance(st_, ast.Expr) and st_.value is c_ for st_ in lps_[0].body) \
+                        and not any(isinstance(y, (ast.Break, ast.Continue)) for y in ast.walk(lps_[0])):
+                    okfill = True
+            if not okfill:
+                probs.append("the stored control does not receive one entry for every step of the given control (an empty or shorter "
+                             "list compares equal to nothing the caller reported, and `successful` no longer describes it)")
     ck.ob("D4", iv, iv.f.node, not probs, "; ".join(probs) if probs else "the canonical form keeps every reported override",
           key="canonical form lossless")
     sc = prog.fm(CTRL, "succession_control")
